@@ -94,7 +94,8 @@ def gen_inputs(ctx):
     r = ctx.rng
     xs = []
     for n in range(0, 601):
-        xs.append(('random', darg(bytes(r.randrange(256) for _ in range(n)))))
+        for _ in range(1 if ctx.tier == 'quick' else 3):
+            xs.append(('random', darg(bytes(r.randrange(256) for _ in range(n)))))
         xs.append(('zeros', darg(b'\x00' * n)))
         xs.append(('ff', darg(b'\xff' * n)))
         # embedded NULs: random bytes with about a quarter zeroed, position 0 or the last position forced to NUL in turn
@@ -102,6 +103,9 @@ def gen_inputs(ctx):
         if n:
             b[(0, n - 1, n // 2)[n % 3]] = 0
         xs.append(('nuls', darg(bytes(b))))
+        if ctx.tier == 'thorough' and n:
+            b = bytearray(r.choice(b'\x00\x00\x01\x80\xff') for _ in range(n))
+            xs.append(('nuls', darg(bytes(b))))
     big = [1000, 1023, 1024, 1025, 4095, 4096, 4097, 8191, 32767, 32768, 32769, 65535, 65536, 65537]
     if ctx.tier == 'quick':
         big += [r.randrange(601, 20000) for _ in range(6)] + [100003]
@@ -125,6 +129,7 @@ def gen_file_ops(ctx):
             lens = sorted(set([0, 1, rest, rest + 1, max(rest - 1, 0), min(rest, 32768), min(rest, 32769), min(rest, 32767), min(rest, 64), r.randrange(0, rest + 1)]))
             for nb in lens:
                 ops.append((d, off, nb))
+    ops += [('R7,10', -1, 0), ('R7,10', 0, -1), ('R7,10', -3, -3)]        # EINVAL path
     return ops
 
 # ---------------------------------------------------------------- running (driver processes in parallel; deep recursion on long lists needs a large stack)
@@ -249,7 +254,7 @@ def run(ctx, replay=None):
             if dd not in cache:
                 cache[dd] = materialise(dd)
             f = cache[dd]
-            valid = off + nb <= len(f)
+            valid = off >= 0 and nb >= 0 and off + nb <= len(f)
             ref = hashlib.md5(f[off:off + (nb or len(f) - off)]).hexdigest() if valid else 'FALSE'
             n = (nb or len(f) - off) if valid else 0
             ctx.count('file:' + ('valid-range' if valid else 'range-beyond-eof'))
@@ -266,7 +271,8 @@ def run(ctx, replay=None):
             if n:
                 ctx.distinct.add((op, n, cls))
             ctx.count('len:' + ('0' if n == 0 else '1-63' if n < 64 else '64-600' if n <= 600 else '601-65536' if n <= 65536 else '>65536'))
-        if impl != model:
+        mh = re.match(r'UNSTABLE hi=(\S+)', impl)      # the model runs on the exactly-sized buffer: that is the `hi` placement
+        if (mh.group(1) if mh else impl) != model:
             corr_bad += 1
             if corr_bad <= 5:
                 ctx.broken.append(('correspondence:' + op, '%s: impl=%s model=%s' % (ops[i][:300], impl[:200], model)))
@@ -283,10 +289,9 @@ def run(ctx, replay=None):
                     sig['observed'] = 'stops-at-first-nul'
                 ctx.report('impl-vs-spec', sig, '%s: result is not the published algorithm applied to exactly the given bytes (%s)' % (op, sig['observed']),
                            {'op': ops[i], 'expected': want, 'actual': impl, 'length': n})
-    ctx.sample({'op': ops[5 * 4 * 5 + 2][:120], 'impl': il[5 * 4 * 5 + 2], 'model': ml[5 * 4 * 5 + 2], 'spec': spec.get(5 * 4 * 5 + 2)})
-    ctx.sample({'op': ops[5 * 4 * 64 + 4][:120], 'impl': il[5 * 4 * 64 + 4], 'model': ml[5 * 4 * 64 + 4], 'spec': spec.get(5 * 4 * 64 + 4)})
-    ctx.sample({'op': ops[5 * 4 * 601 + 3], 'impl': il[5 * 4 * 601 + 3], 'model': ml[5 * 4 * 601 + 3]})
-    ctx.sample({'op': ops[-7], 'impl': il[-7], 'model': ml[-7], 'spec': spec.get(len(ops) - 7)})
+    nper = len(xs) * len(OPS)
+    for k in (min(102, len(ops) - 1), min(nper // 3 + 4, len(ops) - 1), max(nper - 12, 0), len(ops) - 7):
+        ctx.sample({'op': ops[k][:120], 'impl': il[k], 'model': ml[k], 'spec': spec.get(k)})
     ctx.cov['correspondence_mismatches'] = corr_bad
     ctx.cov['spec_evaluations'] = len(sidx)
     ctx.cov['placements_per_input'] = 'each input hashed 6 times by the harness: exact buffer ending at a guard page, buffer starting after a guard page, offsets 1 and 11 from a 16-aligned address with 0x00 and with 0xFF junk around; one observation only if all six agree'
